@@ -61,7 +61,7 @@ def requests(kdir):
     ex = lambda *p: os.path.join(env.REPO, *p)  # noqa
     return [
         ("zen1-triad", ["--arch", "zen1", ex("examples", "triad", "triad.s.zen.gcc.s")]),
-        ("zen4-daxpy", ["--arch", "zen4", ex("examples", "daxpy", "daxpy.s.zen.gcc.s")]),
+        ("zen4-daxpy", ["--arch", "zen4", ex("examples", "triad", "triad.s.csx.icc.s")]),   # same text as zen1-unknown under another model
         ("n1-composed-rmw", ["--arch", "n1", os.path.join(kdir, "rmw_a64.s")]),
         ("tx2-kernel", ["--arch", "tx2", ex("tests", "test_files", "kernel_aarch64.s")]),
         ("zen1-fixed", ["--arch", "zen1", "--fixed", ex("examples", "j2d", "j2d.s.zen.gcc.s")]),
@@ -146,9 +146,9 @@ def _fingerprints():
     out = {}
     for path, data in MachineModel._runtime_cache.items():
         try:
-            out[os.path.basename(path)] = hashlib.sha1(pickle.dumps(data)).hexdigest()[:12]
+            out[os.path.basename(str(path))] = hashlib.sha1(pickle.dumps(data)).hexdigest()[:12]
         except Exception as ex:  # noqa
-            out[os.path.basename(path)] = "unpicklable:" + type(ex).__name__
+            out[os.path.basename(str(path))] = "unpicklable:" + type(ex).__name__
     return out
 
 
